@@ -16,6 +16,7 @@ mod strokefam;
 mod boundary;
 mod selfcheck;
 mod drivers;
+mod curveedge;
 
 use serde_json::{json, Value};
 use std::io::{BufRead, BufReader, Write};
@@ -34,6 +35,7 @@ pub fn run_scenario(sc: &Value) -> Value {
         "views" => views::run(sc),
         "shade" => shade::run(sc),
         "stroke" => strokefam::run(sc),
+        "curveedge" => curveedge::run(sc),
         "boundary" => boundary::run(sc),
         "selfcheck" => selfcheck::run(sc),
         _ => json!({"id": sc["id"], "outcome": "badfam"}),
@@ -167,7 +169,11 @@ fn main() {
             let scs = match fam.as_str() {
                 "surface" => surface::drive(seed, n),
                 "cov" => cov::drive(seed, n),
-                "curve-float" | "stroke-float" => drivers::curve_float(fam, seed, n),
+                "curve-float" | "curve-big" | "stroke-float" => drivers::curve_float(fam, seed, n),
+                "dashops" => drivers::dashops(seed, n),
+                "curveedge-shift" => curveedge::drive(seed, n, 400, 100),
+                "curveedge" => curveedge::drive(seed, n, 48, 20),
+                "curve-sweep" => drivers::curve_sweep(seed, n),
                 f if f.starts_with("canvas") => drivers::canvas(f, seed, n),
                 "flatten" => drivers::curve("flatten", seed, n),
                 "contains" | "builder" | "arc" => pathfam::drive(fam, seed, n),
